@@ -199,7 +199,22 @@ def run_one(tape, cfg):
                 if op == "enter":
                     if len(stack) >= 4:
                         continue
-                    if tape.chance(1, 2, "withcb"):
+                    how = tape.draw(5, "enterhow")
+                    if how == 4 and len(stack) <= 2:
+                        # context managers prepared first and entered afterwards (ExitStack style),
+                        # possibly two for the same callback
+                        names = tuple(NAMES[tape.draw(4, "cb")] for _ in range(2))
+                        for n in names:
+                            if n in model_active():
+                                out.probe("same_cb_nested" if n in held() else "registered_then_entered")
+                        if names[0] == names[1]:
+                            out.probe("same_cb_nested")
+                        ctxs = [add_callbacks(cbs[n]) for n in names]
+                        out.probe("prepared_context_managers")
+                        for n, ctx in zip(names, ctxs):
+                            ctx.__enter__()
+                            stack.append(((n,), ctx))
+                    elif how < 2:
                         n = ("A", "B", "X")[tape.draw(3, "cb")]
                         names = (n,)
                         cm = cbs[n]
